@@ -426,6 +426,37 @@ pub fn judge(sc: &Scenario) -> Judgement {
             }
         }
     }
+    // (b') every answer - not only the text probes - is the one a lock-step client gets for the
+    // same session: the same script under the reference configuration (closed loop, FIFO,
+    // shipped capacities, no stalls) must produce the same responses
+    {
+        let mut rsc = super::c19::reference_of(sc);
+        for st in rsc.script.iter_mut().skip(1) {
+            st.wait = true;
+        }
+        let rref = runner::run(&rsc, &RunOptions::default());
+        j.runs.push(RunStats::of(&rref));
+        if rref.hang.is_none() && rref.task_panics.is_empty() && rref.status() == rec.status() {
+            let a = super::c19::canon_responses(sc, &rref);
+            let b = super::c19::canon_responses(sc, &rec);
+            j.comparisons += a.len() as u64;
+            if a != b {
+                let k = a.iter().zip(b.iter()).position(|(x, y)| x != y).unwrap_or(a.len().min(b.len()));
+                let method = a.get(k).and_then(|r| super::c19::method_of(sc, r.0)).unwrap_or("?").to_string();
+                j.violate(
+                    ID,
+                    "answers-independent-of-load",
+                    format!("answers-independent-of-load {method}"),
+                    format!(
+                        "response #{k} ({method}) differs between a lock-step run and the pipelined run of the same session: {:?} vs {:?}",
+                        a.get(k).map(|r| short(&format!("{r:?}"))),
+                        b.get(k).map(|r| short(&format!("{r:?}")))
+                    ),
+                );
+                return j;
+            }
+        }
+    }
     // (c), (d) diagnostics
     let notes: Vec<(&String, &Value)> = rec
         .frames
@@ -522,5 +553,13 @@ fn tail(t: &str) -> String {
         format!("…{}", &t[t.len() - 90..])
     } else {
         t
+    }
+}
+
+fn short(t: &str) -> String {
+    if t.chars().count() > 300 {
+        format!("{}…", t.chars().take(300).collect::<String>())
+    } else {
+        t.to_string()
     }
 }
